@@ -13,7 +13,7 @@ CORR, PROPCHK = 'C06_corr', 'C06_prop'
 THEOREMS = ['C06_rollback_restores', 'C06_as_if_never_attempted', 'C06_savepoint_restores',
             'C06_savepoint_as_if_never_attempted', 'C06_no_state_left_in_memory', 'C06_clear_connection_is_the_code',
             'C06_clear_is_the_code', 'C06_clear_inside_savepoint_does_nothing',
-            'C06_savepoint_state_is_complete_in_the_code', 'C06_model_unit_of_work_is_in_the_snapshot', 'C06_example']
+            'C06_savepoint_state_is_complete_in_the_code', 'C06_rollback_savepoint_is_the_code', 'C06_every_session_is_the_savepoint_machine', 'C06_model_unit_of_work_is_in_the_snapshot', 'C06_example']
 RULE = ('(F) fault injection through the public before_cursor_execute event: for generated histories one transaction is '
         'chosen and a failure is raised at a statement boundary of it (quick: first, last and up to 4 random boundaries; '
         'thorough: every boundary); the application rolls back and continues; compared: every table right after the '
@@ -163,7 +163,32 @@ def gen_sp_program3(rng):
     return prog
 
 
+def with_bystander(rng, prog):
+    """another session of the process (its own database, no writes) opens a savepoint before one of the program's
+    savepoints begins and rolls it back / releases it before that one ends: the manager's savepoint registry is shared"""
+    out, opened = [], False
+    for op in prog:
+        if op[0] == 'sp_begin' and not opened and rng.random() < 0.7:
+            out.append(['by', 'begin'])
+            opened = True
+            out.append(op)
+            if rng.random() < 0.3:
+                out += [['by', 'begin']]
+            continue
+        if op[0] in ('sp_rollback', 'sp_release', 'sp_fail') and opened:
+            out.append(['by', rng.choice(['rollback', 'rollback', 'release'])])
+            opened = False
+        out.append(op)
+    return out
+
+
 def gen_sp_program(rng):
+    if rng.random() < 0.35:
+        return with_bystander(rng, gen_sp_program0(rng))
+    return gen_sp_program0(rng)
+
+
+def gen_sp_program0(rng):
     if rng.random() < 0.3:
         return gen_sp_program3(rng)
     if rng.random() < 0.5:
@@ -212,6 +237,12 @@ def corpus():
                                           ['sp_rollback'], ['set', 0, 1, {'a': 3}], ['commit']]),
             dict(kind='S', cfg=cfg, prog=[['add', 0, 1, {'a': 1}], ['add', 3, 1, {'a': 0}], ['commit'], ['sp_begin'],
                                           ['set', 3, 1, {'a': 2}], ['flush'], ['sp_rollback'], ['set', 0, 1, {'a': 3}], ['commit']]),
+            # another session of the process opened a savepoint first and rolls it back before this session's one ends
+            dict(kind='S', cfg=cfg, prog=[['add', 0, 1, {'a': 1}], ['commit'], ['by', 'begin'], ['sp_begin'], ['add', 0, 2, {'a': 2}],
+                                          ['flush'], ['by', 'rollback'], ['sp_rollback'], ['add', 0, 3, {'a': 3}], ['commit']]),
+            dict(kind='S', cfg=dict(cfg, strategy='subquery'),
+                 prog=[['add', 0, 1, {'a': 1}], ['commit'], ['set', 0, 1, {'a': 2}], ['flush'], ['by', 'begin'], ['sp_begin'],
+                       ['set', 0, 1, {'a': 3}], ['flush'], ['by', 'rollback'], ['sp_rollback'], ['set', 0, 1, {'a': 4}], ['commit']]),
             # retry after a savepoint rollback: the same value again, for an entity versioned earlier in the transaction ...
             dict(kind='S', cfg=cfg, prog=[['add', 0, 1, {'a': 1}], ['commit'], ['set', 0, 1, {'a': 2}], ['flush'], ['sp_begin'],
                                           ['set', 0, 1, {'a': 3}], ['flush'], ['sp_rollback'], ['set', 0, 1, {'a': 3}], ['commit']]),
